@@ -128,6 +128,24 @@ theorem parseProbe_inv (c : Cfg) (w : World) (st : St) (img : List Nat) (hi : St
             · exact ⟨fRealSrc_len img him, fEthSrc_len img him, fEthDst_len img him, by simp only []; split <;> decide⟩
             · exact hi.obs o ho
 
+/-- parseProbe leaves the record as it is or puts one observation in front (and bumps the count) -/
+theorem parseProbe_shape (b : Cfg) (w : World) (st : St) (img : List Nat) :
+    (parseProbe b w st img).st = st ∨ ∃ o, (parseProbe b w st img).st = { st with sees := o :: st.sees, count := (st.count + 1) % u32 } := by
+  unfold parseProbe
+  by_cases h1 : (fRealDst img != b.ourMac) = true
+  · simp only [h1, if_true]; first | exact Or.inl rfl | simp
+  · simp only [h1]
+    by_cases h2 : seesFull st.count = true
+    · simp only [h2, if_true]; first | exact Or.inl rfl | simp
+    · simp only [h2]
+      by_cases h3 : (w.malloc X.nodeBytes).2 = true
+      · simp only [h3, Bool.not_true, Bool.false_eq_true, if_false]
+        by_cases h4 : st.sees.any (fun p => fEthSrc img == p.src && fRealSrc img == p.realSrc) = true
+        · simp only [h4, if_true]; first | exact Or.inl rfl | simp
+        · simp only [h4]; first | exact Or.inr ⟨_, rfl⟩ | simp
+      · simp only [Bool.not_eq_true] at h3
+        simp only [h3, Bool.not_false, if_true]; first | exact Or.inl rfl | simp
+
 theorem queryLoop_count (mtu : Nat) (sees : List Obs) (rem off : Nat) : (queryLoop mtu sees rem off).2 ≤ sees.length ∧ (queryLoop mtu sees rem off).2 ≤ rem := by
   induction sees generalizing rem off with
   | nil => simp [queryLoop]
